@@ -272,6 +272,10 @@ class World:
         ev['out'] = out
         ev['post'] = self.diff_post()
         ev['optsp'] = self.opts()
+        # an object that has grown beyond what TLC can judge in reasonable time ends the program (skipped and counted;
+        # sizes of this order are exercised on purpose only with calls whose specification is linear in the size)
+        if call['op'] != 'rawcall' and any(r.get('n', 0) > 120000 for r in ev['post'].values()):
+            raise enc.Unloggable('an object grew beyond 120000 bits')
         return ev
 
 
